@@ -456,6 +456,10 @@ class Ghost:
         self.pren = []           # (ino, f, t): clean file renames not yet flushed by a sync_dir
         self.half = False        # a cross-directory rename was flushed on the destination side only
         self.stale = set()       # old names left marked durable by such a flush (survives crashes)
+        self.leftover = set()    # names a file left (unlink / rename) while it had unsynced data, since the last crash
+        self.unflushed = {}      # name a file left -> (its inode, other parent of the rename or None): removal not flushed yet
+        self.recreated = {}      # such a name -> inode of the file created there meanwhile
+        self.recr_ren = {}       # old / new name of an unflushed rename -> inode of a file created there meanwhile
         self.open_paths = {}     # slot -> path the handle was opened with
 
     def stale_handle(self, fs, slot):
@@ -469,10 +473,22 @@ class Ghost:
             r = None
         return r is None or r[0] != "file" or r[1] != hd["ino"]
 
-    def classes(self, st, dur):
+    def leaves_bytes(self, dur, p):
+        """a file created at p now would show bytes of the file that left p: its pending data
+        operations, or its persisted contents while the removal is not flushed"""
+        if p in self.leftover:
+            return True
+        u = self.unflushed.get(p)
+        return u is not None and len(dur.ddata.get(u[0], b"")) > 0
+
+    def under_rename(self, p):
+        return any(p == f or p == t for _, f, t in self.pren)
+
+    def classes(self, st, dur, dec=()):
         name = st[0].split("@")[0]
         fs = dur.fs
         out = []
+        coin = any(d[0] == "coin" and d[1] for d in dec)
         if name == "crash":
             return out
         if self.half:
@@ -490,7 +506,15 @@ class Ghost:
             k = fs.kind(st[3])
             creat = "c" in flags or "n" in flags
             if k is None and creat and st[3] in self.gone:
+                out.append("RecreateAny")
+            if k is None and creat and self.leaves_bytes(dur, st[3]):
                 out.append("Recreate")
+            if k is None and creat and self.under_rename(st[3]) and "t" in flags and "w" in flags:
+                try:
+                    Posix.open_mode(flags)
+                    out.append("Recreate")
+                except Err:
+                    pass
             if k is None and creat and st[3] in self.gdirs:
                 out.append("KindSwap")
             if k is None and creat and st[3] in self.stale:
@@ -504,6 +528,10 @@ class Ghost:
         if name == "spit":
             k = fs.kind(st[2])
             if k is None and st[2] in self.gone:
+                out.append("RecreateAny")
+            if k is None and (self.leaves_bytes(dur, st[2]) or self.under_rename(st[2])):
+                out.append("Recreate")
+            if k is None and st[2] in self.unflushed and st[3] and coin:
                 out.append("Recreate")
             if k is None and st[2] in self.gdirs:
                 out.append("KindSwap")
@@ -514,8 +542,19 @@ class Ghost:
         if name in ("write_at", "write", "set_len") and fs.h(st[2]) is not None and fs.h(st[2])["w"]:
             if name == "set_len" or (st[4] if name == "write_at" else st[3]):
                 touched = fs.h(st[2])["ino"]
+        if touched is not None and touched in self.recr_ren.values():
+            out.append("Recreate")              # data of a file created at a name of an unflushed rename lands on the renamed file
         if touched is not None and any(r[0] == touched for r in self.pren):
             out.append("RenameFile")            # (e) written while its rename is not yet flushed
+        synced_ino = None
+        if name in ("sync_all", "sync_data") and fs.h(st[2]) is not None:
+            synced_ino = fs.h(st[2])["ino"]
+        if name in ("write_at", "write", "set_len") and coin and fs.h(st[2]) is not None and fs.h(st[2])["w"]:
+            synced_ino = fs.h(st[2])["ino"]
+        if name == "spit" and coin and st[3] and fs.kind(st[2]) == "file":
+            synced_ino = fs.lookup(st[2])[1]
+        if synced_ino is not None and synced_ino in self.recreated.values():
+            out.append("Recreate")              # data sync of a re-created file whose predecessor's removal is not flushed
         if name in ("sync_all", "sync_data") and fs.h(st[2]) is not None:
             for ino, f, t in self.pren:
                 if ino == fs.h(st[2])["ino"] and (dur.dent.get(t) == "dir" or t in self.stale):
@@ -577,6 +616,7 @@ class Ghost:
         fs = dur.fs
         if name == "crash":
             self.gone, self.gdirs, self.rtargets, self.pren, self.half = set(), set(), set(), [], False
+            self.leftover, self.unflushed, self.recreated, self.recr_ren = set(), {}, {}, {}
             self.open_paths = {}
             return
         if name == "dump":
@@ -587,21 +627,37 @@ class Ghost:
                 pf, pt = parent(f), parent(t)
                 if st[2] != pf and st[2] != pt:
                     keep.append((ino, f, t))
-                elif pf == pt or st[2] == pf:
+                    continue
+                self.recr_ren.pop(f, None)
+                self.recr_ren.pop(t, None)
+                if pf == pt or st[2] == pf:
                     pass
                 elif dur.dent.get(f) == ino:
                     self.stale.add(f)           # (i) fine, except that the old name keeps its durable mark
                 elif dur.persisted(ino):
                     self.half = True            # (h) until the next crash the old name is visible again
             self.pren = keep
+            for q in [q for q, u in self.unflushed.items() if parent(q) == st[2] or u[1] == st[2]]:
+                del self.unflushed[q]
+                self.recreated.pop(q, None)
         if name == "rename" and fs.kind(st[2]) == "file":
             if self.clean_rename(st, dur):
                 self.pren.append((fs.lookup(st[2])[1], st[2], st[3]))
             if self.rename_ok(fs, st[2], st[3]):
                 self.gone.add(st[2])
                 self.rtargets.add(st[3])
+                ino = fs.lookup(st[2])[1]
+                if ino in dur.dirty:
+                    self.leftover.add(st[2])
+                self.unflushed[st[2]] = (ino, parent(st[3]))
+                self.recreated.pop(st[2], None)
         if name == "unlink" and fs.kind(st[2]) == "file":
             self.gone.add(st[2])
+            ino = fs.lookup(st[2])[1]
+            if ino in dur.dirty:
+                self.leftover.add(st[2])
+            self.unflushed[st[2]] = (ino, None)
+            self.recreated.pop(st[2], None)
         if name in ("rmdir", "rmdir_all") and fs.kind(st[2]) == "dir":
             self.gdirs.add(st[2])
             if name == "rmdir_all":
@@ -616,8 +672,15 @@ class Ghost:
                 walk(st[2], fs.lookup(st[2])[1])
 
     def after_open(self, st, fs_after):
-        if st[0].split("@")[0] == "open" and fs_after.h(st[2]) is not None:
+        name = st[0].split("@")[0]
+        if name == "open" and fs_after.h(st[2]) is not None:
             self.open_paths[st[2]] = st[3]
+        p = st[3] if name == "open" else st[2] if name == "spit" else None
+        if p in self.unflushed and p not in self.recreated and fs_after.kind(p) == "file":
+            self.recreated[p] = fs_after.lookup(p)[1]
+        if p is not None and self.under_rename(p) and p not in self.recr_ren and fs_after.kind(p) == "file" \
+                and not any(fs_after.lookup(p)[1] == r[0] for r in self.pren):
+            self.recr_ren[p] = fs_after.lookup(p)[1]
 
 
 def history_features(case, obs=None, upto=None):
@@ -639,7 +702,7 @@ def history_features(case, obs=None, upto=None):
         h = st[1]
         dur, gh = durs[h], ghosts[h]
         fs = dur.fs
-        feats.update(gh.classes(st, dur))
+        feats.update(gh.classes(st, dur, decs[si] if si < len(decs) else ()))
         if name == "dump":
             continue
         if name == "crash":
@@ -1360,7 +1423,7 @@ KNOWN_CLASSES = ["RootOp", "RenameSelf", "StaleHandle", "RenameDir", "RenameFile
                  "KindSwap"]
 # what the Coq theorems exclude (FsSafe classes): any successful rename of a regular file, not
 # only the defective ones
-THEOREM_EXCLUDED = ["RootOp", "RenameSelf", "StaleHandle", "RenameDir", "RenameFileAny", "Recreate", "KindSwap"]
+THEOREM_EXCLUDED = ["RootOp", "RenameSelf", "StaleHandle", "RenameDir", "RenameFileAny", "RecreateAny", "KindSwap"]
 
 
 def known_class(case, obs, step):
@@ -1419,4 +1482,63 @@ def rename_scenarios(rng):
                     st.append(["dump", 0])
                 st += [["crash", 0], ["dump", 0]]
                 out.append({"cfg": base_cfg(rng, 1), "steps": st, "flavour": "rename-scenario"})
+    return out
+
+
+def recreate_scenarios(rng, crash=True):
+    """Exhaustive small family: an entry (file with or without data, data synced or not;
+    or a directory) made durable or not, removed, the removal flushed or not, an entry of
+    the same kind created again at the same path (a file: written / data-synced or not),
+    directory syncs, optionally an observation, then (crash=True) a crash and a dump."""
+    import itertools
+    out = []
+    base = [["mkdir", 0, "/d"], ["sync_dir", 0, "/"]]
+    for x, par in (("/a", "/"), ("/d/a", "/d")):
+        for durable, flushed, nsync, look in itertools.product((False, True), (False, True), (0, 1, 2), (False, True)):
+            # a directory
+            st = list(base) + [["mkdir", 0, x]]
+            if durable:
+                st.append(["sync_dir", 0, par])
+            st.append(["rmdir", 0, x])
+            if flushed:
+                st.append(["sync_dir", 0, par])
+            st.append(["mkdir", 0, x])
+            st += [["sync_dir", 0, par]] * nsync
+            if look:
+                st.append(["dump", 0])
+            if crash:
+                st += [["crash", 0], ["dump", 0]]
+            elif not look:
+                st.append(["dump", 0])
+            out.append({"cfg": base_cfg(rng, 1), "steps": st, "flavour": "recreate-scenario"})
+            # a regular file
+            for old_data, old_synced, new_data, new_synced in itertools.product((False, True), (False, True), (False, True),
+                                                                                (False, True)):
+                if (old_synced and not old_data) or (new_synced and not new_data):
+                    continue
+                st = list(base) + [["open", 0, 1, x, "rwc"]]
+                if old_data:
+                    st.append(["write_at", 0, 1, 0, rand_bytes(rng)])
+                if old_synced:
+                    st.append(["sync_all", 0, 1])
+                st.append(["close", 0, 1])
+                if durable:
+                    st.append(["sync_dir", 0, par])
+                st.append(["unlink", 0, x])
+                if flushed:
+                    st.append(["sync_dir", 0, par])
+                st.append(["open", 0, 2, x, "rwc"])
+                if new_data:
+                    st.append(["write_at", 0, 2, 0, rand_bytes(rng)])
+                if new_synced:
+                    st.append(["sync_all", 0, 2])
+                st.append(["close", 0, 2])
+                st += [["sync_dir", 0, par]] * nsync
+                if look:
+                    st.append(["dump", 0])
+                if crash:
+                    st += [["crash", 0], ["dump", 0]]
+                elif not look:
+                    st.append(["dump", 0])
+                out.append({"cfg": base_cfg(rng, 1), "steps": st, "flavour": "recreate-scenario"})
     return out
